@@ -52,6 +52,8 @@ NumTokens == <<
   [t |-> <<49,50,51,52,53,54,55,56,57,48>>, c |-> 1],          \* 1234567890  (10 digits: double path)
   [t |-> <<50,49,52,55,52,56,51,54,52,55>>, c |-> 1],          \* 2147483647
   [t |-> <<45,50,49,52,55,52,56,51,54,52,56>>, c |-> 1],       \* -2147483648
+  [t |-> <<52,50,57,52,57,54,55,50,57,54>>, c |-> 1],          \* 4294967296  (10 digits, beyond int)
+  [t |-> <<57,57,57,57,57,57,57,57,57,57>>, c |-> 1],          \* 9999999999
   [t |-> <<45,49,50,51,52,53,54,55,56>>, c |-> 1],             \* -12345678 (9 characters)
   [t |-> <<49,48,48,48,48,48,48,48,48,46,48>>, c |-> 1],       \* 100000000.0
   [t |-> <<48,46,49>>, c |-> 1],                               \* 0.1   (not dyadic: value checked in the V direction)
